@@ -243,7 +243,9 @@ def main(argv=None):
                 violations.append((path, full, ''))
     known_lines = []
     for k, w in zip(known, conc['witnesses']):
-        if w.get('status') == 'ok' and w.get('fails'):
+        if w.get('status') == 'ok' and w.get('evaluated', 0) == 0:
+            errors.append(('known-findings', 'witness %s: its clause %r was never evaluated by unit %s (stale witness or renamed label)' % (k['id'], w['label'], w['unit'])))
+        elif w.get('status') == 'ok' and w.get('fails'):
             known_lines.append('KNOWN-FINDING: property=%s %s [%s]' % (prop, k['what'], k['id']))
         elif w.get('status') in ('error', 'no-such-unit'):
             errors.append(('known-findings', 'witness %s could not be replayed: %s' % (k['id'], w.get('trace', w.get('status')))))
